@@ -177,9 +177,10 @@ func VH_C13_ActionFault() {
 
 	err := vhDo(te, act, caller, chips)
 
-	failed := len(w.bk.calls) == 1 && verifrt.BoolI("bk.fail", 0)
+	failed := len(w.bk.calls) >= 1 && verifrt.BoolI("bk.fail", 0)
 	if failed {
 		verifrt.Reach("backend failed")
+		verifrt.Assert(len(w.bk.calls) == 1, "a failed backend call is not followed by another request on the caller's behalf")
 		verifrt.Assert(err == vhErrBackend, "caller gets the backend's error")
 		verifrt.Assert(verifrt.SameState(snapT, te.table), "failed backend call: table exactly as before")
 		verifrt.Assert(w.g.gs == gsBefore && verifrt.SameState(snapG, w.g.gs), "failed backend call: hand exactly as before")
